@@ -245,7 +245,13 @@ def are_d_separated(
 
     # Filter to ancestors
     keep = graph.ancestors_inclusive(named)
-    evidence_graph = graph.subgraph(keep).moralize().disorient()
+    ancestral_graph = graph.subgraph(keep)
+    evidence_graph = ancestral_graph.moralize().disorient()
+    # nodes joined by a path whose inner nodes are all colliders (possibly through bidirected
+    # edges) must be adjacent: each district together with its parents forms a clique
+    for district in ancestral_graph.districts():
+        clique = district | ancestral_graph.get_markov_pillow(district)
+        evidence_graph.add_edges_from(combinations(clique, 2))
 
     keep = set(evidence_graph.nodes) - set(conditions)
     evidence_graph = evidence_graph.subgraph(keep)
